@@ -16,10 +16,14 @@ import (
 
 // Call is one step of a process script.
 type Call struct {
-	Kind   string // open add addmulti addempty addbad compactall compactexpiry autocompact clean close reopen read fresh
+	Kind   string // open add addmulti addempty addbad compactall compactexpiry autocompact compactrange clean close reopen read fresh
 	Txns   []*gen.Txn
 	Expiry *reftable.LogExpirationConfig
+	First, Last int // compactrange
 }
+
+// CompactRange is set when the export wrapper for compactRange is available.
+var CompactRange func(st *reftable.Stack, first, last int) (bool, error)
 
 func (c Call) String() string {
 	s := c.Kind
@@ -28,6 +32,9 @@ func (c Call) String() string {
 	}
 	if c.Expiry != nil {
 		s += fmt.Sprintf(" {T=%d min=%d max=%d}", c.Expiry.Time, c.Expiry.MinUpdateIndex, c.Expiry.MaxUpdateIndex)
+	}
+	if c.Kind == "compactrange" {
+		s += fmt.Sprintf("[%d,%d]", c.First, c.Last)
 	}
 	return s
 }
@@ -128,6 +135,10 @@ func (a *Actor) run(p *vos.Proc, c Call) {
 		err = rtx.Safe(func() error { return a.St.CompactAll(c.Expiry) })
 	case "autocompact":
 		err = rtx.Safe(func() error { return a.St.AutoCompact() })
+	case "compactrange":
+		if CompactRange != nil {
+			err = rtx.Safe(func() error { _, e := CompactRange(a.St, c.First, c.Last); return e })
+		}
 	case "clean":
 		err = rtx.Safe(func() error { return a.St.Clean() })
 	case "close":
@@ -218,7 +229,7 @@ func (a *Actor) judge(p *vos.Proc, c Call, ci *CallInfo, err error) {
 		if err != nil {
 			w.violate([]string{"C05", "C10"}, "open-failed|"+errCls(err), "p%d NewStack failed: %v (list %v, dir %v)", p.ID, err, mustNames(w.Dir), stx.DirNames(w.Dir))
 		}
-	case "compactall", "autocompact", "compactexpiry":
+	case "compactall", "autocompact", "compactexpiry", "compactrange":
 		if err != nil && err != reftable.ErrLockFailure {
 			w.violate([]string{"C04"}, c.Kind+"-failed|"+errCls(err), "p%d %s failed with %q (without I/O faults compaction either succeeds or gives up on contention)", p.ID, c.String(), err)
 		}
